@@ -29,6 +29,7 @@ DEFAULTS = {
     "d6": ("NULL", "NULL"), "d7": ("CURRENT_TIMESTAMP", "CURRENT_TIMESTAMP"), "d8": ("1000", 1000),
     "d9": ("12345678901234567890", 12345678901234567890), "d10": ("''", "''"), "d11": ("0", 0), "d12": ("'NULL'", "'NULL'"),
     "d13": ("FALSE", "FALSE"), "d14": ("'2020-01-01'", "'2020-01-01'"),
+    "d15": ("(NULL)", "NULL"), "d16": ("':)'", "':)'"), "d17": ("'a)b'", "'a)b'"), "d18": ("'n/a)'", "'n/a)'"), "d19": ("','", "','"),
 }
 # references: id -> (schema, table, on_delete, on_update, clause order)
 REFS = {
@@ -39,6 +40,8 @@ REFS = {
     "r5": ("s9", "o", "SET NULL", None),      # two-word actions: known finding KF-C02-twoword
     "r6": (None, "o", None, "NO ACTION"),
     "r7": (None, "o", "SET DEFAULT", "SET NULL"),
+    "r8": (None, "kv", None, None, ("key", "comment", "default")),      # referenced columns named like keywords
+    "r9": ("s9", "kv", "CASCADE", None, ("on", "not", "references")),
 }
 REFCOLS = ("x", "y", "z")
 # grammar keywords of the pinned tree (frozen here so that the name pool does not follow a changed tokens.py)
@@ -101,9 +104,13 @@ EXTRAS = {
 }
 
 
+def refcols(rid):
+    return REFS[rid][4] if len(REFS[rid]) > 4 else REFCOLS
+
+
 def ref_clause(rid, ncols, rnd=None):
-    sch, tb, od, ou = REFS[rid]
-    s = "REFERENCES " + (sch + "." if sch else "") + tb + " (" + ", ".join(REFCOLS[:ncols]) + ")"
+    sch, tb, od, ou = REFS[rid][:4]
+    s = "REFERENCES " + (sch + "." if sch else "") + tb + " (" + ", ".join(refcols(rid)[:ncols]) + ")"
     parts = []
     if od:
         parts.append("ON DELETE " + od)
@@ -228,11 +235,11 @@ def expected(obs, open_names=(), nm=None):
     refs = []
     for r in obs["refs"]:
         rid, k = r["r"]
-        sch, tb, od, ou = REFS[rid]
+        sch, tb, od, ou = REFS[rid][:4]
         if k == 0:  # named FOREIGN KEY constraint: whole column lists
-            refs.append({"cs": [nm[c] for c in r["cs"]], "sch": sch, "tb": tb, "rc": list(REFCOLS[:len(r["cs"])]), "od": od, "ou": ou})
+            refs.append({"cs": [nm[c] for c in r["cs"]], "sch": sch, "tb": tb, "rc": list(refcols(rid)[:len(r["cs"])]), "od": od, "ou": ou})
         else:
-            refs.append({"cs": [nm[c] for c in r["cs"]], "sch": sch, "tb": tb, "rc": [REFCOLS[k - 1]], "od": od, "ou": ou})
+            refs.append({"cs": [nm[c] for c in r["cs"]], "sch": sch, "tb": tb, "rc": [refcols(rid)[k - 1]], "od": od, "ou": ou})
     return {
         "cols": cols,
         "pk": [nm[c] for c in obs["pk"]],
